@@ -71,7 +71,7 @@ pub fn build_smx(objects: usize, points: usize, triangles: usize, checkpoints: u
             for k in 0..3 {
                 b.extend_from_slice(&(((o + 1) * 100 + p * 3 + k) as i32).to_le_bytes());
             }
-            b.extend_from_slice(&[255, (p as u8) + 1, 2, 3]);
+            b.extend_from_slice(&[255, (p as u8).wrapping_add(1), 2, 3]);
         }
         for tr in 0..triangles {
             for k in 0..3 {
@@ -83,7 +83,7 @@ pub fn build_smx(objects: usize, points: usize, triangles: usize, checkpoints: u
     counts.push(b.len());
     b.extend_from_slice(&(checkpoints as i32).to_le_bytes());
     for c in 0..checkpoints {
-        let v: i32 = match pattern { 0 => c as i32 - 1, 1 => 40_000 + c as i32 * 70_000, _ => [i32::MAX, i32::MIN][c % 2] };
+        let v: i32 = match pattern { 0 => c as i32 - 1, 1 => 40_000i32.wrapping_add((c as i32).wrapping_mul(70_000)), _ => [i32::MAX, i32::MIN][c % 2] };
         b.extend_from_slice(&v.to_le_bytes());
     }
     FileCase {
@@ -209,16 +209,26 @@ pub fn sites(tier: Tier) -> Vec<Site> {
         let mut ladder: Vec<u64> = vec![];
         for k in 13..=17u32 { for d in [-1i64, 0, 1] { ladder.push(((1i64 << k) + d) as u64); } }
         let mut m = 4096u64; while m <= (1 << 17) { ladder.push(m); m += 4096; }
+        // and counts at which the BYTE size of the list crosses 64 KiB, 1, 4, 16 and 32 MiB (element sizes 40, 24,
+        // 16, 8 and 4 bytes): a reader working in byte-sized chunks has its seams there
+        for size in [1u64 << 16, 1 << 20, 1 << 22, 1 << 24, 1 << 25] {
+            for elem in [40u64, 24, 16, 8, 4] {
+                for d in 0..3u64 { ladder.push(size / elem + d); }
+            }
+        }
         ladder.retain(|x| *x > n_max);
         ladder.sort(); ladder.dedup();
         let ladder = std::sync::Arc::new(ladder);
         let per = n_max + 1 + ladder.len() as u64;
         sites.push(Site::new("count-sweep", per * 5,
-            &format!("files with every count 0..={n_max} (and beyond it 2^k-1, 2^k, 2^k+1 up to 2^17 and every multiple of 4096) in one count field at a time {{PTH nodes, SMX objects (empty), SMX points, SMX triangles (one object), SMX checkpoints}}: parsed, written back byte for byte, re-parsed"),
+            &format!("files with every count 0..={n_max} (and beyond it 2^k-1, 2^k, 2^k+1 up to 2^17, every multiple of 4096, and the counts at which the list's byte size crosses 64 KiB / 1 / 4 / 16 / 32 MiB) in one count field at a time {{PTH nodes, SMX objects (empty), SMX points, SMX triangles (one object), SMX checkpoints}}: parsed, written back byte for byte, re-parsed"),
             move |i, acc| {
                 mark(3, i);
                 acc.eval();
                 let n = { let j = i % per; if j <= n_max { j as usize } else { ladder[(j - n_max - 1) as usize] as usize } };
+                // (lists of more than 34 MB are not built)
+                let elem = [40usize, 24, 16, 8, 4][(i / per) as usize];
+                if n * elem > 34 * 1024 * 1024 { return; }
                 let f = match i / per {
                     0 => build_pth(n, 1),
                     1 => build_smx(n, 0, 0, 1, 1, b"Blackwood"),
